@@ -24,8 +24,7 @@ theorem run_decList (w : Nat) (enc : α → Bytes) (dec : P α) (wf : α → Pro
     P.run (decList w dec) (encList w enc xs ++ r) = some (xs, r) := by
   unfold decList encList
   rw [List.append_assoc, P.run_bind_some _ _ _ _ _ (run_rdI w (xs.length : Int) _ hl)]
-  have : ¬ ((xs.length : Int) < 0) := by omega
-  simp only [this, if_false, Int.toNat_natCast]
+  simp only [Int.toNat_natCast]
   exact run_decMany enc dec wf rt xs r h
 
 theorem run_map_some (f : α → β) (p : P α) (bs r : Bytes) (a : α) (h : P.run p bs = some (a, r)) :
